@@ -1,7 +1,7 @@
 HOOK_COMMITS = []
 ENGINES = [
     {"name": "E1", "path": "mc/engine/core.py", "kind_free_text": "bounded exhaustive input enumeration of the real functions against set-of-bases / truth-table reference models, sharded over processes",
-     "serves_properties": ["C01", "C04", "C08"]},
+     "serves_properties": ["C01", "C02", "C04", "C08"]},
 ]
 NOT_APPLICABLE = {}
 CHECKS = {
@@ -22,4 +22,11 @@ CHECKS = {
                 text="Every set of <=3-4 genes over all intervals of a tiny line/ring and every query location (simple and origin-spanning, both flags) "
                      "is looked up through the real Record and compared with brute force over all genes.",
                 note="Small-scope (L<=12, <=4 genes); origin-spanning genes may be reported first or last for simple queries; build-order part shares the C06 state graph."),
+    "C02": dict(engine="E1", level="exploration", ref="DESIGN.md 5/C02",
+                technique="bounded exhaustive enumeration of rule texts (token lists from known ASTs, every layout deviation, every token-substring alias, every single-token corruption) on the real parser vs an independent reference recogniser",
+                text="Every generated rule text is parsed by the real Parser; the result is read back structurally and compared (modulo a "
+                     "semantics-preserving normal form, with a truth-table fallback through the real evaluator) with the AST it was built from / "
+                     "with what an independent recogniser of the documented grammar derives; every single-token corruption must be rejected or "
+                     "parse to the recogniser's meaning; shipped rule files and regenerated texts included.",
+                note="Bounds: <=3 leaves, one corruption, <=2 layout deviations; reference recogniser mc/ref/grammar.py trusted; minscore inside cds() unjudged; one open finding (C02-F1)."),
 }
